@@ -138,18 +138,70 @@ pub(crate) mod verif_support {
     /// A String of exactly N symbolic bytes, all ASCII (so valid UTF-8 by construction).
     pub fn any_ascii_string<const N: usize>() -> String {
         let bytes: [u8; N] = kani::any();
+        // one fixed allocation filled with concrete 'a's, then overwritten byte by byte with the symbolic
+        // ASCII bytes (String::push of a symbolic char is two orders of magnitude more expensive in CBMC)
+        let mut s = String::with_capacity(N + 1);
+        let mut j = 0;
+        while j < N {
+            s.push('a');
+            j += 1;
+        }
         let mut i = 0;
         while i < N {
             kani::assume(bytes[i] < 128);
+            unsafe { s.as_bytes_mut()[i] = bytes[i] };
             i += 1;
         }
-        let mut s = String::with_capacity(N);
-        let mut j = 0;
-        while j < N {
-            s.push(bytes[j] as char);
-            j += 1;
-        }
         s
+    }
+
+    // ------------------------------------------------------------------ evaluator by contract (ghost state)
+    // The contract of the parse/evaluate pair, as seen by an operator function (C04, C05, C13, C14):
+    //   * `Parsed::from_value(v)` may only be applied to RULE TEXT: v must be one of the registered nodes;
+    //   * `parsed.evaluate(d)` evaluates that node once against `d` and yields its planned outcome.
+    // The stubs (in value.rs, they need Raw's private field) record every call; harnesses compare the
+    // record with the spec. Outcome i: Err, or Ok(New(Number(u_i))) / Ok(Raw(&Number(u_i))) with u_i an
+    // independent symbolic u64 (truthy iff != 0), or a fixed container value.
+    pub mod ev {
+        use serde_json::Value;
+        pub const MAXN: usize = 8;
+        pub static mut NODES: [*const Value; MAXN] = [std::ptr::null(); MAXN];
+        pub static mut N_NODES: usize = 0;
+        /// 0 = Err, 1 = Ok(Evaluated::New(value)), 2 = Ok(Evaluated::Raw(&value))
+        pub static mut OUT_CLASS: [u8; MAXN] = [0; MAXN];
+        pub static mut OUT_VAL: [*const Value; MAXN] = [std::ptr::null(); MAXN];
+        pub static mut PARSE_COUNT: [u8; MAXN] = [0; MAXN];
+        pub static mut LOG_NODE: [usize; 16] = [0; 16];
+        pub static mut LOG_DATA: [*const Value; 16] = [std::ptr::null(); 16];
+        pub static mut LOG_N: usize = 0;
+        pub static mut FOREIGN_PARSE: bool = false;
+
+        pub fn register(v: &Value, class: u8, out: *const Value) -> usize {
+            unsafe {
+                let i = N_NODES;
+                NODES[i] = v as *const Value;
+                OUT_CLASS[i] = class;
+                OUT_VAL[i] = out;
+                N_NODES = i + 1;
+                i
+            }
+        }
+        pub fn node_index(v: *const Value) -> Option<usize> {
+            let mut i = 0;
+            while i < unsafe { N_NODES } {
+                if unsafe { NODES[i] } == v {
+                    return Some(i);
+                }
+                i += 1;
+            }
+            None
+        }
+        pub fn log_len() -> usize {
+            unsafe { LOG_N }
+        }
+        pub fn log_at(k: usize) -> (usize, *const Value) {
+            unsafe { (LOG_NODE[k], LOG_DATA[k]) }
+        }
     }
 
     /// Kind tags used by the kind-pair harnesses.
